@@ -213,6 +213,52 @@ Definition m_send_command (cmd data : pv) : pm pv :=
   | _, _ => mstuck
   end.
 
+(* ---- the transport under _send_command: self.dongle.exchange(apdu, timeout=...) ----
+   One exchange of the scripted device seen at the level of the transport library: the answer's data, or the
+   exception OBJECT the transport raises (as the fake transports of the harness and ledgerblue do):
+   a status word -> CommException(message, sw); no answer in time -> CommException("Timeout", 0x6F00);
+   a failed write -> BaseException("Error while writing"); a failed read -> OSError("read error");
+   anything else -> some other exception.  Result: [VInt 0; data] or [VInt 1; exception object]. *)
+Definition exc_obj_of_resp (r : resp) : option pv :=
+  match r with
+  | Data _ => None
+  | Status sw => Some (VObj "CommException" [("sw", VInt (Z.of_N sw)); ("message", VStr (s "Invalid status"))])
+  | TimeoutR => Some (VObj "CommException" [("sw", VInt 28416%Z); ("message", VStr (s "Timeout"))])
+  | WriteErr => Some (VObj "BaseException" [("args", VList [VStr (s "Error while writing")])])
+  | ReadErr => Some (VObj "OSError" [("args", VList [VStr (s "read error")])])
+  | Raise => Some (VObj "RuntimeError" [("args", VList [])])
+  end.
+
+Definition m_exchange (apdu : pv) : pm pv :=
+  match apdu with
+  | VBytes a =>
+      fun w =>
+        let r := match script w with [] => TimeoutR | r :: _ => r end in
+        let w' := push (Apdu a r) (match script w with [] => w | _ :: rest => set_script w rest end) in
+        (XOk (match r, exc_obj_of_resp r with
+              | Data b, _ => VList [VInt 0%Z; VBytes b]
+              | _, Some e => VList [VInt 1%Z; e]
+              | _, None => VNone
+              end), w')
+  | _ => mstuck
+  end.
+
+(* raise HSM2DongleErrorResult(code) *)
+Definition m_raise_error_result (code : pv) : pm pv :=
+  match vint code with
+  | Some c => if (c <? 0)%Z then mstuck else mraise (ErrorResult (Z.to_N c))
+  | None => mstuck
+  end.
+
+(* struct.pack("BB%ds" % len(data), a, b, data): two unsigned bytes then the data; out-of-range leaves the subset *)
+Definition py_struct_pack_BBs (a b data : pv) : pm pv :=
+  match vint a, vint b, data with
+  | Some x, Some y, VBytes d =>
+      if ((0 <=? x) && (x <? 256) && (0 <=? y) && (y <? 256))%Z
+      then mret (VBytes (Z.to_N x :: Z.to_N y :: d)) else mstuck
+  | _, _, _ => mstuck
+  end.
+
 (* bytes([a, b, ...]) / bytes(x) for a list of ints in 0..255 or a bytes object *)
 Definition py_bytes (v : pv) : pm pv :=
   match v with
